@@ -9,10 +9,12 @@ var checks = map[string]func(*Report){
 	"C01": runC01,
 	"C03": runC03,
 	"C11": runC11,
+	"C14": runC14,
 	"C16": runC16,
 	"C17": runC17,
 	"C12": runC12,
 	"C19": runC19,
+	"C20": runC20,
 	"C13": runC13,
 }
 
